@@ -353,6 +353,22 @@ def find_call_arg(path, fn_selector, callee, k, argn=None):
 
 
 def find_region(path, fn_selector, start_pat, end_pat):
+    """`A ||| B` in either anchor: alternative shapes of the anchored statement; the first combination that is found is used"""
+    starts = [x.strip() for x in start_pat.split("|||")]
+    ends = [x.strip() for x in end_pat.split("|||")]
+    if len(starts) == 1 and len(ends) == 1:
+        return _find_region1(path, fn_selector, start_pat, end_pat)
+    err = None
+    for a_ in starts:
+        for b_ in ends:
+            try:
+                return _find_region1(path, fn_selector, a_, b_)
+            except LostAnchor as e:
+                err = err or e
+    raise err
+
+
+def _find_region1(path, fn_selector, start_pat, end_pat):
     """the statements of the function selected by fn_selector from the statement that starts with the token sequence
        start_pat up to and including the statement that starts with end_pat (through its terminating `;` at the bracket depth
        of its first token). Returned as an Item of kind 'region' (tokens of those statements, byte-identical)."""
